@@ -72,10 +72,23 @@ def record_cli_case(cid, corpora, srcfmt, destfmt, split, filt, mods, seed, orig
     mods = mods or treeio.repo_modules()
     rnd = random.Random(seed)
     four = srcfmt == 'export' and rnd.random() < 0.5
-    destopts = ['export_four'] if destfmt == 'export' and rnd.random() < 0.3 else []
-    src_enc = rnd.choice(['utf-8', 'utf-8', 'latin-1', 'utf-16']) if srcfmt != 'tigerxml' else 'utf-8'
+    destopts = []
+    r_ = rnd.random()
+    if destfmt == 'export' and r_ < 0.3:
+        destopts = ['export_four']
+    elif destfmt in ('export', 'brackets', 'discobrackets') and r_ < 0.45:
+        destopts = ['gf']
+    elif destfmt == 'brackets' and r_ < 0.6:
+        destopts = ['brackets_emptyroot']
+    srcopts = []
+    r2_ = rnd.random()
+    if srcfmt in ('export', 'tigerxml') and r2_ < 0.25:
+        srcopts = ['continuous']
+    elif srcfmt != 'discobrackets' and r2_ < 0.4:
+        srcopts = ['gf_split']
+    src_enc = rnd.choice(['utf-8', 'latin-1', 'utf-16']) if srcfmt != 'tigerxml' else 'utf-8'
     dest_enc = rnd.choice(['utf-8', 'utf-8', 'latin-1', 'utf-16'])
-    gz = srcfmt in ('export', 'brackets') and rnd.random() < 0.25
+    gz = srcfmt in ('export', 'brackets', 'discobrackets') and rnd.random() < 0.4
     sids, texts = [], []
     for ci, Ts in enumerate(corpora):
         s0 = rnd.choice([1, 10, 100])
@@ -92,7 +105,7 @@ def record_cli_case(cid, corpora, srcfmt, destfmt, split, filt, mods, seed, orig
                 else:
                     dest_enc = 'utf-8'
     tmp = tempfile.mkdtemp(prefix='vf_cli_')
-    case = {'id': cid, 'origin': origin, 'srcfmt': srcfmt, 'destfmt': destfmt, 'srcopts': [], 'destopts': destopts,
+    case = {'id': cid, 'origin': origin, 'srcfmt': srcfmt, 'destfmt': destfmt, 'srcopts': srcopts, 'destopts': destopts,
             'four': 'T' if four else 'F', 'trees': corpora, 'sids': sids, 'split': split,
             'filt': {'on': 'T' if filt['on'] else 'F', 'op': filt['op'], 'val': filt['val']},
             'destnames': [], 'partnames': [], 'events': [], 'src_enc': src_enc, 'dest_enc': dest_enc, 'gz': gz}
@@ -111,10 +124,7 @@ def record_cli_case(cid, corpora, srcfmt, destfmt, split, filt, mods, seed, orig
         case['destnames'] = [n + '.dest' for n in names] if dirmode else ['dest.out']
         args = ['transform', src, 'dest.out', '--src-format', srcfmt, '--dest-format', destfmt,
                 '--src-enc', src_enc, '--dest-enc', dest_enc]
-        if srcfmt != 'tigerxml':
-            args += ['--src-opts', 'quiet']
-        else:
-            args += ['--src-opts', 'quiet']
+        args += ['--src-opts', 'quiet'] + srcopts
         if destopts:
             args += ['--dest-opts'] + destopts
         if split:
@@ -130,13 +140,18 @@ def record_cli_case(cid, corpora, srcfmt, destfmt, split, filt, mods, seed, orig
         if rc == 0:
             for fn in produced:
                 try:
-                    txt = read_text(os.path.join(tmp, fn), dest_enc)
-                    ev['files'].append({'name': fn, 'rec': file_records(destfmt, destopts, txt)})
+                    if destfmt == 'tigerxml':
+                        # the XML document is parsed from its bytes (its own declaration says how to decode it)
+                        with open(os.path.join(tmp, fn), 'rb') as fb:
+                            rec = fam_io.tiger_record(fb.read())
+                    else:
+                        rec = file_records(destfmt, destopts, read_text(os.path.join(tmp, fn), dest_enc))
+                    ev['files'].append({'name': fn, 'rec': rec})
                 except Exception as ex:
                     ev['files'].append({'name': fn, 'rec': {'lines': [], 'ok': 'F', 'sents': []},
                                         'err': type(ex).__name__})
         case['events'].append(ev)
-        if rc == 0 and not split and destfmt != 'terminals':
+        if rc == 0 and not split and destfmt != 'terminals' and set(destopts) <= {'export_four'}:
             for ci, fn in enumerate(case['destnames']):
                 if os.path.exists(os.path.join(tmp, fn)):
                     params = {'quiet': True}
@@ -148,8 +163,12 @@ def record_cli_case(cid, corpora, srcfmt, destfmt, split, filt, mods, seed, orig
                 rc2, out2, err2 = treetools(args2, tmp)
                 ev2 = {'a': 'back', 'src': 1, 'rc': rc2, 'name': 'back.out', 'files': [], 'stderr': err2[-300:] if rc2 else ''}
                 if rc2 == 0 and os.path.exists(os.path.join(tmp, 'back.out')):
-                    ev2['files'].append({'name': 'back.out',
-                                         'rec': file_records(srcfmt, [], read_text(os.path.join(tmp, 'back.out'), 'utf-8'))})
+                    if srcfmt == 'tigerxml':
+                        with open(os.path.join(tmp, 'back.out'), 'rb') as fb:
+                            rec2 = fam_io.tiger_record(fb.read())
+                    else:
+                        rec2 = file_records(srcfmt, [], read_text(os.path.join(tmp, 'back.out'), 'utf-8'))
+                    ev2['files'].append({'name': 'back.out', 'rec': rec2})
                 case['events'].append(ev2)
     finally:
         shutil.rmtree(tmp, ignore_errors=True)
